@@ -1,6 +1,6 @@
 (* C17 - Every rejection is explained by well-formed, correctly located errors. *)
 From Coq Require Import List ZArith Bool.
-From Verif Require Import Base.Sx Base.GoVal Schema.Ast Schema.Pipeline Schema.PipelineFacts.
+From Verif Require Import Base.Sx Base.GoVal Schema.Ast Schema.Pipeline Schema.PipelineFacts Schema.PipelineNames.
 Import ListNotations.
 Open Scope Z_scope.
 
@@ -33,3 +33,16 @@ Theorem C17_merge_valid : forall r o,
   r_valid (merge r o) = r_valid r && match o with Some o => r_valid o | None => true end.
 Proof. exact r_valid_merge. Qed.
 Print Assumptions C17_merge_valid.
+
+(* every error of a result is about the instance the validator was given: its name is empty (two messages carry no
+   name) or extends the validator's path - for every schema, value, oracle, numeric implementation, environment and
+   fuel, with the two Swagger pre-checks off (they name the keyword, not the place) *)
+Theorem C17_names_extend_the_path : forall OR N opt defs,
+  opt_array_must_have_items opt = false -> opt_obj_array_type_check opt = false ->
+  forall fuel s p d r, sv_validate OR N opt defs fuel s p p d = Ok r ->
+  forall e, In e (r_errs r) -> m_name e = [] \/ extends p (m_name e).
+Proof.
+  intros OR N opt defs H1 H2 fuel s p d r Hr e He.
+  pose proof (names_extend_the_path OR N opt defs H1 H2 fuel s p p d (extends_refl p)) as H. rewrite Hr in H. exact (H e He).
+Qed.
+Print Assumptions C17_names_extend_the_path.
